@@ -253,6 +253,7 @@ macro_rules! vk_proof_models_fmt {
         #[cfg_attr(kani, kani::stub(<&rust_decimal::Decimal as core::ops::Sub<&rust_decimal::Decimal>>::sub, crate::verif_dec::sub_ref))]
         #[cfg_attr(kani, kani::stub(rust_decimal::ops::cmp::cmp_impl, crate::verif_dec::cmp_impl))]
         #[cfg_attr(kani, kani::stub(<rust_decimal::Decimal as core::fmt::Display>::fmt, crate::verif_dec::display_fmt_tiny))]
+        #[cfg_attr(kani, kani::stub(core::slice::sort::unstable::sort, crate::verif_env::unstable_sort_model))]
         pub fn $name() $body
     };
 }
